@@ -200,7 +200,9 @@ Formats:
 
 	for _, m := range ms.Modules {
 		if mods[m.Name] == nil {
-			mods[m.Name] = m
+			// A module is filed under its bare name and under
+			// name@revision; the bare name holds the latest revision.
+			mods[m.Name] = ms.Modules[m.Name]
 			names = append(names, m.Name)
 		}
 	}
